@@ -23,6 +23,7 @@ import (
 
 	"verif/internal/progen"
 	"verif/internal/vf"
+	"verif/internal/yrun"
 )
 
 // Case is one debug session.
@@ -118,7 +119,7 @@ func plain(src string) result {
 // waitProgress waits for done; it gives up when the interpreter executes no
 // operation for 20 s (never a bare wall-clock limit).
 func waitProgress(done chan struct{}, i *interp.Interpreter) bool {
-	last, at := i.VerifOps(), time.Now()
+	last, clock := i.VerifOps(), yrun.NewStallClock()
 	t := time.NewTicker(100 * time.Millisecond)
 	defer t.Stop()
 	for {
@@ -127,8 +128,9 @@ func waitProgress(done chan struct{}, i *interp.Interpreter) bool {
 			return true
 		case <-t.C:
 			if n := i.VerifOps(); n != last {
-				last, at = n, time.Now()
-			} else if time.Since(at) > 20*time.Second {
+				last = n
+				clock.Reset()
+			} else if clock.Idle() > 20*time.Second {
 				return false
 			}
 		}
@@ -221,7 +223,7 @@ func debug(c *Case) (result, []event, []interp.Breakpoint) {
 		}
 		_ = dbg.Continue(0)
 	}
-	last, at := i.VerifOps(), time.Now()
+	last, clock := i.VerifOps(), yrun.NewStallClock()
 	tick := time.NewTicker(100 * time.Millisecond)
 	defer tick.Stop()
 	terminated := false
@@ -230,7 +232,7 @@ loop:
 		select {
 		case ev := <-evc:
 			events = append(events, ev)
-			at = time.Now()
+			clock.Reset()
 			switch ev.reason {
 			case interp.DebugBreak, interp.DebugEntry, interp.DebugStepInto, interp.DebugStepOver, interp.DebugStepOut, interp.DebugPause:
 				resume()
@@ -241,8 +243,9 @@ loop:
 			break loop
 		case <-tick.C:
 			if n := i.VerifOps(); n != last {
-				last, at = n, time.Now()
-			} else if time.Since(at) > 20*time.Second {
+				last = n
+				clock.Reset()
+			} else if clock.Idle() > 20*time.Second {
 				r.stuck = "debug session made no progress for 20s (no interpreted operation, no event)"
 				dbg.Terminate()
 				break loop
